@@ -289,7 +289,8 @@ pub fn make_case(sd: &Seeds, seed: u64, idx: u64) -> Case {
 /// Open + walk one input in the worker under the resource monitors.
 pub fn exec_case(prop: &'static str, idx: u64, c: &Case, out: &mut CaseOut, counters: &mut BTreeMap<String, u64>) {
     let n = c.bytes.len() as u64;
-    let generic_label = c.labels.split(':').next().unwrap_or("").to_string();
+    // budget signatures: the case kind; for the enumerated hand-written cases the label's template (it names the construct)
+    let generic_label = if c.labels.starts_with("special:") { crate::panicmon::template(&c.labels) } else { c.labels.split(':').next().unwrap_or("").to_string() };
     monitored(idx, n, out, counters, &generic_label, prop, |out, counters| {
         let mut w = WalkStats::new();
         crate::walk::ENTRY.store(crate::walk::entry_id("load"), std::sync::atomic::Ordering::Relaxed);
@@ -308,7 +309,7 @@ pub fn exec_case(prop: &'static str, idx: u64, c: &Case, out: &mut CaseOut, coun
             *counters.entry(format!("err:{}", k)).or_insert(0) += err;
             if *pa > 0 { *counters.entry(format!("panic:{}", k)).or_insert(0) += pa; }
         }
-        *counters.entry(format!("kind:{}", generic_label)).or_insert(0) += 1;
+        *counters.entry(format!("kind:{}", c.labels.split(':').next().unwrap_or(""))).or_insert(0) += 1;
         if w.n_calls > 30 { out.nontrivial = Some(fnv(&c.bytes)); }
     });
     if idx < 3 { out.sample = Some(json!({"idx": idx, "labels": c.labels, "bytes": c.bytes.len(), "cfg": c.cfg.name()})); }
